@@ -392,9 +392,16 @@ func (k *Keeper) ApplyMessageWithConfig(ctx sdk.Context,
 		// take over the nonce management from evm:
 		// - reset sender's nonce to msg.Nonce() before calling evm.
 		// - increase sender's nonce by one no matter the result.
+		// The ante handler has already advanced the sequence once for EVERY message of the Cosmos tx;
+		// never move it back below that value, or later messages of the same sender could be replayed.
+		nonceAfterAnte := stateDB.GetNonce(sender.Address())
 		stateDB.SetNonce(sender.Address(), msg.Nonce())
 		ret, _, leftoverGas, vmErr = evm.Create(sender, msg.Data(), leftoverGas, msg.Value())
-		stateDB.SetNonce(sender.Address(), msg.Nonce()+1)
+		if nonceAfterAnte > msg.Nonce()+1 {
+			stateDB.SetNonce(sender.Address(), nonceAfterAnte)
+		} else {
+			stateDB.SetNonce(sender.Address(), msg.Nonce()+1)
+		}
 	} else {
 		ret, leftoverGas, vmErr = evm.Call(sender, *msg.To(), msg.Data(), leftoverGas, msg.Value())
 	}
